@@ -189,6 +189,42 @@ class Env:
         raise KeyError(name)
 
 
+class _Forgotten:
+    """a local that the statements of a block contract assign but its contract does not describe: unusable afterwards"""
+
+    def __init__(self, block):
+        self.block = block
+
+
+class BlockSpec:
+    """A block contract: a contiguous run of statements of a function (a region) with its own precondition, postcondition,
+    exceptional postconditions and frame.  The block is proved on its own as a region contract (`proved_by`, whose clauses
+    this object shares literally); in the proof of the enclosing function the statements are replaced by the contract:
+    the precondition is an obligation, everything in `modifies` / `assigns` is forgotten, the postcondition (with old()
+    meaning the state at the beginning of the block) is assumed - or the block raises under its exceptional
+    postcondition."""
+
+    def __init__(self, name, region, requires=(), ensures=(), raises=None, allow_exc=(), modifies=(), assigns=None, proved_by=None):
+        self.name, self.region = name, dict(region)
+        self.requires, self.ensures = list(requires), list(ensures)
+        self.raises = {k: list(v) for k, v in (raises or {}).items()}
+        self.allow_exc = sorted(allow_exc)
+        self.modifies = list(modifies)
+        self.assigns = dict(assigns or {})      # the locals the block (re)binds, with their types
+        self.proved_by = proved_by
+
+    @classmethod
+    def of(cls, contract, assigns=None, name=None):
+        """the block contract of an existing region contract (same clauses, literally)"""
+        if not contract.region:
+            raise ValueError('a block contract is the contract of a region')
+        a = dict(contract.locals)
+        a.update(assigns or {})
+        contract.is_block = True        # its own proof then has to show the frame: nothing outside `modifies` / its locals changes
+        return cls(name or contract.short, contract.region, contract.requires, contract.ensures, contract.raises,
+                   contract.allow_exc, contract.modifies, a, proved_by=contract)
+
+
 class LoopSpec:
     def __init__(self, inv=(), modifies=(), locals=None, ghost_init=None, ghost_end=None, decreases=None,
                  ghost_pre=None, live=False):
@@ -334,6 +370,8 @@ class Engine:
         self.setattr_hooks = {}  # (kind, attr) -> fn(engine, value, new): attribute assignment on an abstract object
         self.stmt_ghosts = False
         self.format_hooks = {}
+        self.block_nodes = {}      # id(first statement) -> (BlockSpec, number of statements): block contracts in force
+        self.blocks_used = set()
         self._hv_ids = set()
         self.opaque_exprs = {}     # source text of a comprehension -> factory(engine): taken as that value, elements not evaluated
         self.heap = {}            # global ghost state (object heaps) visible to code hooks and to every spec
@@ -817,7 +855,10 @@ class Engine:
 
     def eval_Name(self, node, env):
         try:
-            return env.lookup(node.id)
+            v = env.lookup(node.id)
+            if isinstance(v, _Forgotten):
+                raise EngineError('%r is assigned inside the block contract %r, which does not describe it (declare it in `assigns`)' % (node.id, v.block))
+            return v
         except KeyError:
             if node.id in self.builtins:
                 return self.builtins[node.id]
@@ -1322,6 +1363,25 @@ class Engine:
             return
         raise EngineError('cannot havoc %s' % src)
 
+    def box_ids_of(self, paths, env):
+        """the containers denoted by `modifies` paths (by identity)"""
+        ids = set()
+        for src in paths:
+            node = ast.parse(src.strip(), mode='eval').body
+            self.spec += 1
+            try:
+                try:
+                    v = self.eval(node, env)
+                except (EngineError, KeyError):
+                    continue
+            finally:
+                self.spec -= 1
+            if isinstance(v, Box):
+                ids.add(id(v))
+                if v._fwd is not None:
+                    ids.add(id(v._fwd[0]))
+        return ids
+
     def frame_boxes(self, env):
         """the mutable containers a loop body can reach: locals, the ghost heap, attributes of objects (by identity)"""
         out = {}
@@ -1366,12 +1426,64 @@ class Engine:
 
     # ------------------------------------------------------------------ statements
     def exec_block(self, stmts, env):
-        for s in stmts:
+        i = 0
+        while i < len(stmts):
+            s = stmts[i]
+            hit = self.block_nodes.get(id(s)) if self.block_nodes else None
+            if hit is not None:
+                blk, n = hit
+                self.apply_block(blk, env, s, stmts[i:i + n])        # the statements of a block contract are replaced by the contract
+                i += n
+                continue
             if self.stmt_ghosts:
                 self._stmt_ghost('before:stmt:', s, env)
             self.exec(s, env)
             if self.stmt_ghosts:
                 self._stmt_ghost('after:stmt:', s, env)
+            i += 1
+
+    def apply_block(self, blk, env, node, stmts):
+        self.line = getattr(node, 'lineno', self.line)
+        self.blocks_used.add(blk.name)
+        for k, r in enumerate(blk.requires):
+            self.oblige(self._b(self.spec_truth(r, env)), 'block-pre:%s:%d' % (blk.name, k))
+        # the state at the beginning of the block: what old() means in its clauses
+        fenv = env
+        while fenv.parent is not None and '__locals__' not in fenv.vars:
+            fenv = fenv.parent
+        snap = {k: self.snapshot(v) for k, v in fenv.vars.items() if not k.startswith('__')}
+        snap.update({k: self.snapshot(v) for k, v in self.heap.items()})
+        old_env = Env(self.spec_fallback, snap)
+        for name, ty in sorted(blk.assigns.items()):
+            if name in self.heap:
+                continue
+            env.vars[name] = self.havoc_value(env.vars.get(name), ty, name)
+        for name in sorted(assigned_names(stmts) - set(blk.assigns)):
+            if not name.startswith('g_'):
+                env.vars[name] = _Forgotten(blk.name)
+        saved_hv = getattr(self, '_hv_ids', set())
+        self._hv_ids = set()
+        for m in blk.modifies:
+            self.havoc_path(m, env, blk.assigns)
+        self._hv_ids = saved_hv | self._hv_ids
+        outcomes = ['normal'] + ['raise:' + k for k in sorted(blk.raises)] + ['raise:' + k for k in blk.allow_exc if k not in blk.raises]
+        which = self.choose(outcomes) if len(outcomes) > 1 else 'normal'
+        sub = Env(env, {'__old_env__': old_env})
+        saved = self.cur_old_env
+        self.cur_old_env = old_env
+        try:
+            if which == 'normal':
+                for e in blk.ensures:
+                    self.assume(self._b(self.spec_truth(e, sub)))
+            else:
+                for c in blk.raises.get(which[6:], []):
+                    self.assume(self._b(self.spec_truth(c, sub)))
+        finally:
+            self.cur_old_env = saved
+        self.feasible()
+        if which != 'normal':
+            raise PyExc(which[6:], (), self.line)
+        self.ghost_hook('after:block:' + blk.name, env)
 
     def _stmt_ghost(self, prefix, st, env):
         """ghost code attached to a statement, located by the beginning of its source text (never by line number)"""
